@@ -216,7 +216,7 @@ func (tr *c14Transport) RoundTrip(creq *http.Request) (*http.Response, error) {
 			t.Header.Del("Content-Type")
 		case "wrong-content-type":
 			t.Header.Set("Content-Type", "application/octet-stream")
-		case "ms-response-status", "ms-propstat-status":
+		case "ms-response-status", "ms-propstat-status", "ms-no-href", "ms-two-hrefs", "ms-empty", "ms-status-garbage":
 			if t.Status == 207 {
 				if nb, what := rewriteMultiStatus(t.Body, f); what != "" {
 					t.Body, t.Rewritten = nb, what
@@ -281,6 +281,42 @@ func rewriteMultiStatus(body []byte, f *Fault) ([]byte, string) {
 	}
 	statusLine := fmt.Sprintf("HTTP/1.1 %d %s", f.Arg, http.StatusText(f.Arg))
 	what := ""
+	switch f.Kind {
+	case "ms-empty":
+		root.Kids = nil
+		var b strings.Builder
+		b.WriteString(xmlHdr)
+		writeElem(&b, root)
+		return []byte(b.String()), "no responses at all"
+	case "ms-no-href":
+		var kids []*model.Elem
+		for _, k := range r.Kids {
+			if !k.Is(model.DAV, "href") {
+				kids = append(kids, k)
+			}
+		}
+		r.Kids = kids
+		var b strings.Builder
+		b.WriteString(xmlHdr)
+		writeElem(&b, root)
+		return []byte(b.String()), "response without href (was " + href + ")"
+	case "ms-two-hrefs":
+		r.Kids = append([]*model.Elem{{Space: model.DAV, Local: "href", Text: "/somewhere/else"}}, r.Kids...)
+		var b strings.Builder
+		b.WriteString(xmlHdr)
+		writeElem(&b, root)
+		return []byte(b.String()), "response with two hrefs (" + href + ")"
+	case "ms-status-garbage":
+		for _, ps := range r.Children(model.DAV, "propstat") {
+			if st := ps.Child(model.DAV, "status"); st != nil {
+				st.Text = []string{"garbage", "HTTP/1.1", "200", "HTTP/1.1 abc OK", "HTTP/1.1 99999999999999999999 OK", ""}[f.Sel%6]
+			}
+		}
+		var b strings.Builder
+		b.WriteString(xmlHdr)
+		writeElem(&b, root)
+		return []byte(b.String()), "propstat status lines replaced by garbage (" + href + ")"
+	}
 	if f.Kind == "ms-response-status" {
 		var kids []*model.Elem
 		for _, k := range r.Kids {
@@ -781,6 +817,19 @@ func (ex *executor) callStep(idx int, st *Step) {
 		if inside {
 			return
 		}
+	}
+	// a multi-status damaged in its structure: the call returns (checked above);
+	// whatever it returns as data must not stem from the damaged response
+	if last.Rewritten != "" && (last.Faulted == "ms-no-href" || last.Faulted == "ms-two-hrefs" || last.Faulted == "ms-empty" || last.Faulted == "ms-status-garbage") {
+		ex.probe("multistatus-damaged:" + last.Faulted)
+		if res.Err == nil && (last.Faulted == "ms-no-href" || last.Faulted == "ms-two-hrefs") {
+			for _, it := range res.Items {
+				if it.Path == "/somewhere/else" || it.Path == "" && c.Fn != "FindCurrentUserPrincipal" {
+					bad("failed-resource-as-data", fmt.Sprintf("the multi-status had a %s, yet the call returned an item with path %q from it", last.Rewritten, it.Path))
+				}
+			}
+		}
+		return
 	}
 	// (5) failing resources / properties inside a multi-status
 	if last.Status == 207 && multistatusCalls[c.Fn] {
